@@ -1299,8 +1299,8 @@ def check_C11(tier, seed):
 # ----------------------------------------------------------------------------------------------
 # API histories (VSession): spec -> impl -> spec
 # ----------------------------------------------------------------------------------------------
-SESSION_OWNERS = {"C13": {"convert", "direct", "cellint", "faceint", "facesym"},
-                  "C15": {"cellrt", "cellset", "cells", "clone", "withfaces"},
+SESSION_OWNERS = {"C13": {"convert", "direct", "cellint", "faceint", "facesym", "radii"},
+                  "C15": {"cellrt", "cellset", "cells", "clone", "withfaces", "radii"},
                   "C09": {"rebuild", "cells", "clone", "cellint", "faceint", "facesym", "convert", "direct"}}
 
 
